@@ -237,10 +237,47 @@ def run_streaming_lengths():
                     except Exception as e: chk(False, "peer raised %%r" %% (e,), case)
                     chk(rrec.messages == [(data[:length], True)] and not rrec.closed, "streamed message not delivered intact", case)
 
+def run_violations():
+    """frames that violate RFC 6455 (reserved bits, reserved opcodes, fragmented / long control frames, wrong masking),
+    each followed by a valid message, under three read segmentations and both failure policies: nothing carried by the
+    violating frame and nothing after it may reach the application, and what is delivered must not depend on the
+    segmentation"""
+    global cases
+    def frame(b0, payload, masked, key=b"\x01\x02\x03\x04", l7=None):
+        n = len(payload) if l7 is None else l7
+        h = bytes([b0, (0x80 if masked else 0) | n])
+        return h + (key + bytes(c ^ key[i & 3] for i, c in enumerate(payload)) if masked else payload)
+    for role in ("server", "client"):            # the receiving side
+        for fbd in (False, True):
+            for name, b0, body in (("ping+rsv1", 0x80 | 0x40 | 0x9, b"hi"), ("ping+rsv2", 0x80 | 0x20 | 0x9, b"hi"), ("pong+rsv3", 0x80 | 0x10 | 0xA, b"hi"),
+                                   ("text+rsv1", 0x80 | 0x40 | 0x1, b"hi"), ("opcode3", 0x80 | 0x3, b"hi"), ("opcode11", 0x80 | 0xB, b"hi"),
+                                   ("fragmented ping", 0x9, b"hi"), ("continuation without message", 0x80 | 0x0, b"hi"),
+                                   ("wrong masking", 0x80 | 0x9, b"hi")):
+                seen = {}
+                for split in ("whole", "bytewise", "header|rest"):
+                    cases += 1
+                    server, client, st, ct, srec, crec = pair(False, failByDrop=fbd)
+                    rx, rrec = (server, srec) if role == "server" else (client, crec)
+                    ev = []
+                    rx.onPing = lambda p, ev=ev: ev.append(("ping", bytes(p)))
+                    rx.onPong = lambda p, ev=ev: ev.append(("pong", bytes(p)))
+                    masked = (role == "server") != (name == "wrong masking")
+                    data = frame(b0, body, masked) + frame(0x80 | 0x1, b"after", role == "server")
+                    chunks = [data] if split == "whole" else ([bytes([b]) for b in data] if split == "bytewise" else [data[:2], data[2:]])
+                    try:
+                        for c in chunks:
+                            rx.dataReceived(c)
+                    except Exception as e:
+                        chk(False, "receiver raised %%r" %% (e,), {"role": role, "frame": name, "split": split}); continue
+                    got = ev + [("msg", m) for m in rrec.messages]
+                    seen[split] = got
+                    chk(not got, "delivered %%r from / after a violating frame" %% (got,), {"role": role, "frame": name, "split": split, "failByDrop": fbd})
+                chk(len({repr(v) for v in seen.values()}) <= 1, "verdict depends on the segmentation: %%r" %% (seen,), {"role": role, "frame": name, "failByDrop": fbd})
+
 def run_streaming_all():
     run_streaming(); run_streaming_lengths()
 
-{"messages": run_messages, "streaming": run_streaming_all}[MODE]()
+{"messages": run_messages, "streaming": run_streaming_all, "violations": run_violations}[MODE]()
 print(json.dumps({"bad": bad, "cases": cases}))
 '''
 
